@@ -62,19 +62,36 @@ def r1(p, rep):
                 targs = n.targets[0].elts[-1].id
         if targs is None:
             raise AnalysisError(f"unrecognised idiom: {f.qualname} does not unpack _split_tensors(...)")
-        for n in walk_no_nested(f.node):
-            if isinstance(n, ast.Name) and n.id == targs and isinstance(n.ctx, ast.Load):
-                par = getattr(n, "_parent", None)
-                ctx = par if not isinstance(par, ast.Starred) else getattr(par, "_parent", None)
-                ok = False
-                why = norm(ctx)[:60]
-                if isinstance(ctx, ast.Call):
-                    callee = norm(ctx.func)
-                    if callee in fn_names:
-                        ok, why = True, "arguments of the compiled function (run time)"
-                    elif callee.endswith("registry.get"):
-                        ok, why = True, "backend resolution (types only)"
-                rep.add("C13.R1", f"{f.qualname}:use({why[:40]})", f"{f.module.rel}:{n.lineno}", ok, why if ok else f"user tensors reach `{why}` before/outside the compiled function")
+        def uses(fn, name, depth=0):
+            """[(node, ok, why)] for every load of `name` in fn; passing it on to a helper of the same module is
+            followed into the helper (depth <= 2)."""
+            out = []
+            for n in walk_no_nested(fn.node):
+                if isinstance(n, ast.Name) and n.id == name and isinstance(n.ctx, ast.Load):
+                    par = getattr(n, "_parent", None)
+                    ctx = par if not isinstance(par, ast.Starred) else getattr(par, "_parent", None)
+                    ok, why = False, norm(ctx)[:60]
+                    if isinstance(ctx, ast.Call):
+                        callee = norm(ctx.func)
+                        if callee in fn_names and fn is f:
+                            ok, why = True, "arguments of the compiled function (run time)"
+                        elif callee.endswith("registry.get"):
+                            ok, why = True, "backend resolution (types only)"
+                        else:
+                            r = resolve_callee(p, ctx, fn.module)
+                            if r and r[0] == "func" and r[1].module is fn.module and depth < 2 and not isinstance(par, ast.Starred):
+                                h = r[1]
+                                idx = next((i for i, a in enumerate(ctx.args) if a is n), None)
+                                pname = h.params[idx] if idx is not None and idx < len(h.params) else next((k.arg for k in ctx.keywords if k.value is n), None)
+                                if pname:
+                                    sub = uses(h, pname, depth + 1)
+                                    ok = all(o for _, o, _ in sub)
+                                    why = f"passed to helper {h.name}: " + ("; ".join(sorted({w for _, _, w in sub})) or "unused")
+                    out.append((n, ok, why))
+            return out
+
+        for n, ok, why in uses(f, targs):
+            rep.add("C13.R1", f"{f.qualname}:use({why[:40]})", f"{f.module.rel}:{n.lineno}", ok, why if ok else f"user tensors reach `{why}` before/outside the compiled function")
         # nothing user-derived enters the cache key: the cache call's arguments are the traced args/kwargs
         for nm, (assign, idx) in bound.items():
             if idx == 0:
